@@ -35,12 +35,30 @@ let () =
     | None -> Printf.printf "CASE %d trivial-badcase\n" k
     | Some bar ->
       let cfgw = words (String.sub line 0 bar) in
-      let nsrv = match field cfgw "servers" with Some n -> int_of_string n | None -> 1 in
+      let nsrv0 = match field cfgw "servers" with Some n -> int_of_string n | None -> 1 in
       let rot = field cfgw "rotate" = Some "1" in
-      let initial = List.init nsrv (fun i -> i + 1) in
+      (* "nameserver 10.0.0.k" lines of a written resolv.conf (hex) *)
+      let nameservers hex =
+        let n = String.length hex / 2 in
+        let txt = String.init n (fun i -> Char.chr (int_of_string ("0x" ^ String.sub hex (2 * i) 2))) in
+        List.filter_map (fun l -> match words l with ["nameserver"; a] -> addr_id a | _ -> None) (split_on '\n' txt) in
+      let last_written = ref [] in
+      let initial =
+        if nsrv0 = 0 then
+          (match field cfgw "writefile" with
+           | Some v -> (match String.rindex_opt v ':' with
+               | Some i -> let l = nameservers (String.sub v (i + 1) (String.length v - i - 1)) in last_written := l; l
+               | None -> [])
+           | None -> [])
+        else List.init nsrv0 (fun i -> i + 1) in
+      let nsrv = List.length (List.sort_uniq compare initial) in
       (* simulator's srv index -> address id: configuration order, then new addresses in order of appearance *)
       let srvtab = ref (List.mapi (fun i a -> (i, a)) initial) in
       let mon = ref (Some (mon_init (List.map zi initial) rot)) in
+      let tries = match field cfgw "tries" with Some n -> int_of_string n | None -> 3 in
+      let bmon = ref (Some (bmon_init (List.map zi initial) (zi tries))) in
+      let next_id = ref (match field cfgw "idseq" with Some n -> int_of_string n | None -> 1) in
+      let tok_label = Hashtbl.create 16 in
       let user_ids = Hashtbl.create 16 in
       let seen_ids = Hashtbl.create 16 in
       let pending_user = ref false in
@@ -48,6 +66,18 @@ let () =
       let probes = ref 0 and edits = ref 0 and edits_inflight = ref 0 and sends = ref 0 and maxfail = ref 0 in
       let live = ref 0 in
       let feed ob descr =
+        (match !bmon with
+         | None -> ()
+         | Some b ->
+           (match bmon_step b ob with
+            | Some b' -> bmon := Some b'
+            | None ->
+              add_fail "attempt-not-sent"
+                (Printf.sprintf "op [%s]: %s although only %d transmission(s) were made for it and the budget is %d server(s) x %d tries"
+                   !cur_op descr
+                   (match ob with ODone (l, _) -> List.length (List.filter (fun x -> x = l) b.b_txs) | _ -> 0)
+                   (int_of_nat b.b_nsrv) (iz b.b_tries));
+              bmon := None));
         match !mon with
         | None -> ()
         | Some m ->
@@ -69,10 +99,25 @@ let () =
              let ids = if csv = "-" then [] else List.filter_map addr_id (split_on ',' csv) in
              List.iter (fun a -> if not (List.exists (fun (_, b) -> b = a) !srvtab) then srvtab := !srvtab @ [(List.length !srvtab, a)]) ids;
              feed (OServers (List.map zi ids)) ("setservers " ^ csv)
+           | ["writefile"; _; hex] -> last_written := (try nameservers hex with _ -> [])
+           | ["reinit"] ->
+             (* ares_reinit re-reads the resolv.conf; a file without nameserver keeps the list *)
+             if nsrv0 = 0 && !last_written <> [] then begin
+               incr edits; incr n_edit; if !live > 0 then incr edits_inflight;
+               List.iter (fun a -> if not (List.exists (fun (_, b) -> b = a) !srvtab) then srvtab := !srvtab @ [(List.length !srvtab, a)]) !last_written;
+               feed (OServers (List.map zi !last_written)) "reinit"
+             end
            | _ -> ())
-        | "REQ" :: _ -> pending_user := true; incr sends; incr live
+        | "REQ" :: t :: _ ->
+          pending_user := true; incr sends; incr live;
+          (* query ids are handed out in order (idseq): this request gets the next one *)
+          Hashtbl.replace tok_label t !next_id; Hashtbl.replace user_ids !next_id (); incr next_id
         | "RET" :: _ -> pending_user := false
-        | "CB" :: _ -> if !live > 0 then decr live
+        | "CB" :: t :: rest ->
+          if !live > 0 then decr live;
+          (match Hashtbl.find_opt tok_label t, field rest "status" with
+           | Some l, Some st -> feed (ODone (nat_of_int l, zi (int_of_string st))) (Printf.sprintf "query %s ended with status %s" t st)
+           | _ -> ())
         | "SETSERVERS" :: rc :: _ -> if rc <> "rc=0" then add_fail "setservers-failed" l
         | "TX" :: _ ->
           incr n_tx;
@@ -81,7 +126,7 @@ let () =
              let id = int_of_string id in
              if not (Hashtbl.mem seen_ids id) then begin
                Hashtbl.replace seen_ids id ();
-               if !pending_user then (Hashtbl.replace user_ids id (); pending_user := false)
+               if not (Hashtbl.mem user_ids id) && id >= !next_id then next_id := id + 1   (* a probe copy took this id *)
              end;
              let probe = not (Hashtbl.mem user_ids id) in
              if probe then (incr probes; incr n_probe);
